@@ -110,14 +110,20 @@ def run(ctx):
         sel = [c for c in cfgs if c["i"] in chosen]
     else:
         sel = cfgs
+    # Histories: the selected configurations are chained into walks of ONE live
+    # server (4 configurations + the first one again), reconfigured through
+    # filtering's HTTP handlers; all requests after every reconfiguration; with the
+    # cache on every request twice.
+    walks = cm.make_walks(sel, rng, "w01", extra=("tabr",))
     # a sample also through a real UDP socket
-    udp_n = 60 if ctx.quick else 600
-    for c in rng.sample(sel, min(udp_n, len(sel))):
-        c["udp"] = True
-    confirmed, st = cm.replay_with_confirmation(ctx, TEST_REPLAY, cm.FILES01, hdr, sel, "c01")
+    udp_n = 20 if ctx.quick else 150
+    for w in rng.sample(walks, min(udp_n, len(walks))):
+        w["udp"] = True
+    confirmed, st = cm.replay_with_confirmation(ctx, TEST_REPLAY, cm.FILES01, hdr, walks, "c01")
     for b in confirmed[:MAX_REPORTS]:
-        ctx.disagreement(classify(b), b, "C01: %s -- observed %s, spec admits %s (lists %s)" % (
-            b["concrete"], json.dumps(b["got"]), json.dumps(b["want"]), json.dumps(b["lists"])))
+        ctx.disagreement(classify(b), b, "C01: %s%s -- observed %s, spec admits %s (rule lists over the server's life: %s)" % (
+            b["concrete"], " (asked before)" if b.get("rep") else "", json.dumps(b["got"]), json.dumps(b["want"]),
+            json.dumps(b["history"])))
 
     # Direction B
     n_cfg = 150 if ctx.quick else 700
@@ -146,8 +152,10 @@ def run(ctx):
 
     sel_nt = sum(1 for c in sel if c["i"] in nt)
     blocked_entries = sum(1 for c in sel for e in c["tab"] if any(o["why"] in ("B", "S") for o in e))
-    if blocked_entries == 0 or sel_nt == 0 or st["udp"] == 0:
-        raise vlib.Inconclusive("vacuous replay: no blocked entry / no non-trivial configuration / no UDP request")
+    cached = sum(1 for c in sel if c["cfg"]["cache"])
+    if blocked_entries == 0 or sel_nt == 0 or st["udp"] == 0 or st["reconfigurations"] == 0 or cached == 0:
+        raise vlib.Inconclusive("vacuous replay: blocked=%d nontrivial=%d udp=%d reconfigurations=%d cached=%d" % (
+            blocked_entries, sel_nt, st["udp"], st["reconfigurations"], cached))
     s0 = sel[0]
     samples = [{"cfg": s0["cfg"], "first_entries": s0["tab"][:3]},
                {"cfg": sel[len(sel) // 2]["cfg"], "first_entries": sel[len(sel) // 2]["tab"][:3]}]
@@ -155,7 +163,9 @@ def run(ctx):
     samples.append({"trace_line": next(r for r in trows if r["ev"] == "q")})
     cov = {
         "traces_validated_against_impl": st["configs"] + trace_q,
-        "configurations_generated": len(cfgs), "configurations_replayed": st["configs"],
+        "configurations_generated": len(cfgs), "configurations_replayed": len(sel),
+        "live_servers": st["walks"], "configuration_visits": st["configs"],
+        "reconfigurations_on_live_servers": st["reconfigurations"], "configurations_with_cache": cached,
         "evaluations": st["evals"] + trace_q,
         "queries_per_configuration": nq,
         "distinct_nontrivial": sel_nt, "nontrivial_in_universe": len(nt),
@@ -163,7 +173,7 @@ def run(ctx):
                 "non-trivial = two rules decide the same request, or deleting a rule changes a verdict it does not decide alone, "
                 "or (flag stratum) the flags change the table of the rule set" % nq,
         "blocked_entries_replayed": blocked_entries,
-        "udp_configurations": sum(1 for c in sel if c.get("udp")), "udp_requests": st["udp"],
+        "udp_walks": sum(1 for w in walks if w.get("udp")), "udp_requests": st["udp"],
         "trace_lines": trace_q, "trace_lines_rejected": rejected, "trace_corrupted_lines_rejected": ncorrupt,
         "flaky": st["flaky"], "skipped": st["skipped"],
         "exhaustive": not ctx.quick, "samples": samples,
@@ -177,12 +187,6 @@ def run(ctx):
 
 def replay(ctx, path):
     rec = json.load(open(path))["record"]
-    if "vector" in rec:      # direction A
-        hdr = {"kind": "hdr01", "queries": [rec["req"]]}
-        line = {"kind": "c01", "i": rec.get("i", 0), "cfg": rec["vector"], "tab": [rec["want"]]}
-        confirmed, st = cm.replay_with_confirmation(ctx, TEST_REPLAY, cm.FILES01, hdr, [line], "c01r")
-        print(json.dumps({"expected": rec["want"],
-                          "observed": [b["got"] for b in confirmed] or "admissible",
-                          "concrete": [b["concrete"] for b in confirmed]}, indent=1))
-        return 1 if confirmed else 0
+    if "walk" in rec:      # direction A
+        return cm.replay_stored_walk(ctx, TEST_REPLAY, cm.FILES01, rec, "c01r")
     return cm.replay_trace_record(ctx, TEST_TRACE, cm.FILES01, rec, "c01r")
